@@ -324,23 +324,61 @@ func c09Limits(w *World, r *Report) {
 	}
 	nq := 0
 	bad := ""
-	allInstrs(enc, func(in ssa.Instruction) {
-		st, ok := in.(*ssa.Store)
-		if !ok {
-			return
-		}
-		fa, ok := st.Addr.(*ssa.FieldAddr)
-		if !ok {
-			return
-		}
-		fv := fieldVarOf(fa)
-		if fv == nil || fv.Name() != "Name" || fv.Pkg() == nil || fv.Pkg().Path() != "github.com/miekg/dns" {
-			return
-		}
+	// uses of a value as a question name: stores into dns.Question.Name in the encoder, or in a question-builder
+	// helper it calls (then the use is the helper's call site and the value is the argument)
+	type nameUse struct {
+		val ssa.Value
+		at  ssa.Instruction
+		fn  *ssa.Function
+	}
+	var uses []nameUse
+	cone := staticCone(enc, 2)
+	for _, g := range cone {
+		allInstrs(g, func(in ssa.Instruction) {
+			st, ok := in.(*ssa.Store)
+			if !ok {
+				return
+			}
+			fa, ok := st.Addr.(*ssa.FieldAddr)
+			if !ok {
+				return
+			}
+			fv := fieldVarOf(fa)
+			if fv == nil || fv.Name() != "Name" || fv.Pkg() == nil || fv.Pkg().Path() != "github.com/miekg/dns" {
+				return
+			}
+			if g == enc {
+				uses = append(uses, nameUse{st.Val, st, g})
+				return
+			}
+			mapped := false
+			for _, root := range provenance(st.Val, provOpts{}) {
+				i := paramIndex(g, root)
+				if i < 0 {
+					mapped = false
+					break
+				}
+				for _, h := range cone {
+					for _, c := range callsIn(h) {
+						if c.Common().StaticCallee() == g && i < len(c.Common().Args) {
+							if ci, ok := c.(ssa.Instruction); ok {
+								uses = append(uses, nameUse{c.Common().Args[i], ci, h})
+								mapped = true
+							}
+						}
+					}
+				}
+			}
+			if !mapped {
+				uses = append(uses, nameUse{st.Val, st, g})
+			}
+		})
+	}
+	for _, u := range uses {
 		nq++
 		fromPH := false
 		var errv ssa.Value
-		for _, root := range provenance(st.Val, provOpts{}) {
+		for _, root := range provenance(u.val, provOpts{}) {
 			if ex, ok := root.(*ssa.Extract); ok {
 				if c, ok := ex.Tuple.(*ssa.Call); ok && sCallee(c) == phObj && ex.Index == 0 {
 					fromPH = true
@@ -353,8 +391,8 @@ func c09Limits(w *World, r *Report) {
 			}
 		}
 		if !fromPH {
-			bad = fmt.Sprintf("%s: a question name is not produced by PrepareHostname (no label/length limits applied)", w.Pos(st.Pos()))
-		} else if errv == nil || !dominatedByCondNil(enc, st, func(v ssa.Value) bool {
+			bad = fmt.Sprintf("%s: a question name is not produced by PrepareHostname (no label/length limits applied)", w.Pos(u.at.Pos()))
+		} else if errv == nil || !dominatedByCondNil(u.fn, u.at, func(v ssa.Value) bool {
 			x, _, ok := nilTest(v)
 			if !ok {
 				return false
@@ -366,9 +404,9 @@ func c09Limits(w *World, r *Report) {
 			}
 			return x == errv
 		}) {
-			bad = fmt.Sprintf("%s: PrepareHostname's error is not checked before the name is used", w.Pos(st.Pos()))
+			bad = fmt.Sprintf("%s: PrepareHostname's error is not checked before the name is used", w.Pos(u.at.Pos()))
 		}
-	})
+	}
 	r.Check(bad == "" && nq > 0, "R09.3", "method:commands.Serializer.EncodeDnsRequestWithParams|names", w.Pos(enc.Pos()), fmt.Sprintf("%d question name(s), each from PrepareHostname under err == nil", nq), bad)
 }
 
@@ -534,6 +572,23 @@ func c10Records(w *World, r *Report) {
 							}
 						}
 					})
+					// order tag built by a helper that returns a small fixed-size byte slice
+					if res := sc.Signature.Results(); res.Len() == 1 && isStringOrBytes(res.At(0).Type()) {
+						allInstrs(sc, func(in2 ssa.Instruction) {
+							switch y := in2.(type) {
+							case *ssa.MakeSlice:
+								if v, ok := constIntVal(y.Len); ok && v > 0 && v <= 4 {
+									wi.TagLen = v
+								}
+							case *ssa.Alloc:
+								if arr, ok := y.Type().(*types.Pointer).Elem().(*types.Array); ok {
+									if b, ok := arr.Elem().Underlying().(*types.Basic); ok && b.Kind() == types.Uint8 && arr.Len() > 0 && arr.Len() <= 4 {
+										wi.TagLen = arr.Len()
+									}
+								}
+							}
+						})
+					}
 				}
 			case *ssa.Store:
 				if fa, ok := x.Addr.(*ssa.FieldAddr); ok {
